@@ -37,6 +37,15 @@ def s64():
     for k in (5, 6, 7):
         for o in (0, 8, 16):
             vals.add(int.from_bytes(pat(k, o, 8), "little"))
+    # every combination of the top four bits over bodies 0 / 1 / all-ones / pattern (sign-bit tricks in borrow formulas),
+    # and the same for the low and the high 32-bit half
+    body = (0, 1, (1 << 60) - 1, 0x0123456789abcdef & ((1 << 60) - 1))
+    for t in range(16):
+        for b_ in body:
+            vals.add((t << 60) | b_)
+    for hi in (0, 1, 0x7fffffff, 0x80000000, 0xffffffff):
+        for lo in (0, 1, 0x7fffffff, 0x80000000, 0xffffffff):
+            vals.add((hi << 32) | lo)
     return sorted(vals)
 
 
